@@ -74,6 +74,15 @@ Theorem queries_agree : forall g, index_inv g ->
   (forall p, exists o, parents g p = Ok o /\ opt_set_eq o (q_parents (abs g) p)).
 Proof. exact queries_agree_l. Qed.
 
+(** refinement along histories: after every history with fresh renames the concrete state abstracts to the
+    reference graph obtained by running the reference operations, and the queries answer as the reference does *)
+Theorem refine_ops : forall os, hist_ok empty os = true ->
+  exists g, run_ops empty os = Ok g /\ index_inv g /\ rg_eq (abs g) (r_run rempty os) /\
+    (forall a b, depends_on g a b = Ok (q_depends_on (r_run rempty os) a b)) /\
+    (forall a b, deep_depends_on g a b = Ok (q_deep (r_run rempty os) a b)) /\
+    (forall p, set_eq (children g p) (q_children (r_run rempty os) p)).
+Proof. exact refine_ops_l. Qed.
+
 (** sort: the graph is unchanged as a set of nodes and edges, and the answer passes the executable judge *)
 Theorem sort_judged : forall g x, index_inv g -> sort g = Ok x ->
   rg_eq (abs (snd x)) (abs g) /\
@@ -140,6 +149,9 @@ Proof.
 Qed.
 Example ex_accepted : exists g2, inc_ref ex_g 3 9 = Ok (IncOk, g2) /\ E (abs g2) = [(1, 2); (2, 3); (3, 9)].
 Proof. eexists. split; vm_compute; reflexivity. Qed.
+(* refine_ops: the whole history is refined; its reference graph has the renamed chain 1 -> 5 -> 3 *)
+Example ex_refine : r_run rempty ex_ops = {| V := [1; 5; 3]; E := [(1, 5); (5, 3)] |}.
+Proof. vm_compute. reflexivity. Qed.
 (* acyclic_inv: the chain history has no rename, so the chain graph is acyclic *)
 Example ex_acyclic : acyclic (E (abs ex_g)).
 Proof. apply (acyclic_inv ex_chain ex_g); [vm_compute; reflexivity|exact ex_chain_run]. Qed.
